@@ -6,6 +6,7 @@ pub mod c01;
 pub mod c02;
 pub mod c05;
 pub mod c06;
+pub mod c07;
 pub mod c08;
 pub mod c12;
 pub mod c17;
@@ -39,6 +40,7 @@ pub fn get(id: &str) -> Option<Prop> {
         "C02" => Some(c02::prop()),
         "C05" => Some(c05::prop()),
         "C06" => Some(c06::prop()),
+        "C07" => Some(c07::prop()),
         "C08" => Some(c08::prop()),
         "C12" => Some(c12::prop()),
         "C17" => Some(c17::prop()),
